@@ -36,6 +36,8 @@ pub struct BackendCtl {
     pub parked_total: AtomicU64,
     /// ids of the kept-alive backend connections the backend closed while they were idle
     pub idle_closed: Mutex<HashSet<u64>>,
+    /// h2c backend connections killed by the backend with a request in flight
+    pub h2c_killed: AtomicU64,
 }
 
 /// is the peer of this socket still there? (non-blocking peek: 0 = orderly close, error = reset)
@@ -440,6 +442,62 @@ pub fn tcp_handler(ctl: &Arc<BackendCtl>, mut s: TcpStream) {
             }
             Err(e) if matches!(e.kind(), std::io::ErrorKind::WouldBlock | std::io::ErrorKind::TimedOut) => {}
             Err(_) => return,
+        }
+    }
+}
+
+/// prior-knowledge HTTP/2 (h2c) backend: `/die*` kills the connection with the request in flight
+/// (`/die_mid`: after the response headers and some body), anything else is answered 200
+pub fn h2c_handler(ctl: &Arc<BackendCtl>, s: TcpStream) {
+    use crate::peers::h2::{self, Event, H2Conn, Replenish, Role};
+    let epoch = ctl.epoch.load(Ordering::SeqCst);
+    ctl.active.fetch_add(1, Ordering::SeqCst);
+    let _a = Active(ctl);
+    let start = Instant::now();
+    let mut c = H2Conn::new(s, Role::Server);
+    c.auto_ack = true;
+    c.auto_pong = true;
+    c.replenish = Replenish::Immediately;
+    c.read_timeout = Duration::from_secs(3);
+    c.write_timeout = Duration::from_secs(3);
+    c.trace_cap = 16;
+    if c.handshake_server(&[]).is_err() {
+        return;
+    }
+    loop {
+        if stale(ctl, epoch, start) {
+            ctl.forced_exits.fetch_add(1, Ordering::SeqCst);
+            return;
+        }
+        match c.poll(Duration::from_millis(20)) {
+            Ok(Some(Event::Headers { stream, headers, end_stream: _ })) => {
+                ctl.requests.fetch_add(1, Ordering::SeqCst);
+                let path = h2::header_str(&headers, ":path").unwrap_or_default();
+                if path.starts_with("/die_mid") {
+                    let _ = c.send_headers(stream, &h2::response_headers(200, &[("content-length", "5000")]), false);
+                    let _ = c.send_data(stream, &body(1000), false, None);
+                    std::thread::sleep(Duration::from_millis(2));
+                    ctl.h2c_killed.fetch_add(1, Ordering::SeqCst);
+                    linger0(&c.io);
+                    return;
+                }
+                if path.starts_with("/die") {
+                    ctl.h2c_killed.fetch_add(1, Ordering::SeqCst);
+                    if path.contains("rst") {
+                        linger0(&c.io);
+                    }
+                    return;
+                }
+                if path.starts_with("/slow") {
+                    sleep_ticks(ctl, epoch, start, 100);
+                }
+                let b = body(64);
+                if c.send_headers(stream, &h2::response_headers(200, &[]), false).is_err() || c.send_data(stream, &b, true, None).is_err() {
+                    return;
+                }
+            }
+            Ok(Some(Event::Closed)) | Err(_) => return,
+            Ok(_) => {}
         }
     }
 }
